@@ -542,6 +542,10 @@ func (o *operation) handle() {
 		switch err := o.readRequestMessage(nil, o.request.Body, &reqMsg); {
 		case errors.Is(err, io.EOF):
 			// okay for the first message: means empty message data
+			if reqMsg.buf == nil {
+				// an enveloped client that sent no message at all: nothing was read yet
+				reqMsg.reset(o.bufferPool, true, false)
+			}
 			reqMsg.markReady()
 		case err != nil:
 			o.reportError(err)
